@@ -36,7 +36,7 @@ def core_histories(ctx, hook):
 
     add("comp", [["cli"], ["cli"], ["cli"]])                                            # cold, cache-writing, warm companion
     add("home", [["cli"], ["cli"], ["cli"]])                                            # warm home cache (data dir read-only)
-    add("comp", [["plant", "comp", 4, 0, 0], ["cli"], ["cli"]])                         # pre-existing valid cache in the package dir
+    add("comp", [["plant", "comp", 4, "cur", 0], ["cli"], ["cli"]])                     # pre-existing valid cache in the package dir
     add("comp", [["plant", "comp", 4, 1, -1], ["cli"], ["cli"]])                        # pre-existing cache of an older format, other data
     add("home", [["plant", "home", 4, 1, 1], ["cli"], ["cli"]])                         # ... of a newer format, in the home cache
     add("comp", [["cli"], ["edit", 1], ["cli"], ["cli"], ["edit", 0], ["cli"], ["edit", 2], ["cli"]])   # edited after caching
@@ -46,9 +46,9 @@ def core_histories(ctx, hook):
     add("comp", [["load2"], ["load2"], ["cli"]])                                        # in-process cache
     ks = [0, 1, 2, 3]
     for k in ks:                                                                        # truncated cache file, every offset class
-        add("comp", [["cli"], ["plant", "comp", k, 0, 0], ["cli"], ["cli"]])
+        add("comp", [["cli"], ["plant", "comp", k, "cur", 0], ["cli"], ["cli"]])
     for k in (ks if ctx.tier == "thorough" else [0, 2]):
-        add("home", [["cli"], ["plant", "home", k, 0, 0], ["cli"], ["cli"]])
+        add("home", [["cli"], ["plant", "home", k, "cur", 0], ["cli"], ["cli"]])
     if hook:
         for k in [0, 1, 2, 3, 4]:                                                       # writer killed at every offset class
             add("comp", [["cli_crash", k], ["cli"], ["cli"]])
@@ -78,7 +78,7 @@ def random_histories(ctx, hook, count):
                 ops.append(["edit", ctx.rng.choice([0, 1, 2])])
             elif r < 0.65:
                 ops.append(["plant", ctx.rng.choice(["comp", "home"]), ctx.rng.randint(0, 4),
-                            0, 0] if ctx.rng.random() < 0.7 else
+                            "cur", 0] if ctx.rng.random() < 0.7 else
                            ["plant", ctx.rng.choice(["comp", "home"]), 4, ctx.rng.choice([1, 2]), ctx.rng.choice([-1, 1])])
             elif r < 0.8 and hook:
                 ops.append(["cli_crash", ctx.rng.randint(0, 4)])
@@ -89,7 +89,10 @@ def random_histories(ctx, hook, count):
             else:
                 ops.append(["load2"])
         ops.append(["cli"])
-        hs.append(dict(arch=a, kernel=ctx.rng.choice(H.KERNELS[H.ISA_OF[a]]), mode=mode, variants=[0, 1, 2], ops=ops))
+        kern = ctx.rng.choice(H.KERNELS[H.ISA_OF[a]])
+        if ctx.tier != "thorough":
+            kern = H.KERNELS[H.ISA_OF[a]][0]      # quick: reuse the cold references of the core histories
+        hs.append(dict(arch=a, kernel=kern, mode=mode, variants=[0, 1, 2], ops=ops))
     return hs
 
 
@@ -97,7 +100,7 @@ def fix_plants(spec):
     """A plant in companion position of a read-only world is still a legal history; nothing to adjust.  Plants of
     data of *another* content under the current format version would violate the hypothesis same_ver: exclude."""
     for o in spec["ops"]:
-        if o[0] == "plant" and o[3] != 0 and o[4] == 0:
+        if o[0] == "plant" and o[3] != "cur" and o[4] == 0:
             o[4] = -1
     return spec
 
@@ -196,6 +199,10 @@ def judge(ctx, specs, worlds, tag):
                       len(rej_a), len(worlds), len([j for j in rej_a if j not in rej_i]), i,
                       json.dumps(specs[i]["ops"]), k, worlds[i].events[k] if k < len(worlds[i].events) else "?",
                       "\n".join(worlds[i].log)))
+    for i in [j for j in rej_a if j in rej_i][:3]:
+        k = int(ri[i].split("@")[1])
+        ctx.log("history %d is a run of neither model; InPlace model rejects event %d: %s; AtomicRename: %s\n%s\n%s" % (
+            i, k, worlds[i].events[k] if k < len(worlds[i].events) else "?", ra[i], json.dumps(specs[i]["ops"]), "\n".join(worlds[i].log)))
     ctx.obligation("correspondence (%s): all %d recorded histories (outcomes + file-system states after every operation) "
                    "are runs of the AtomicRename model" % (tag, len(worlds)), "correspondence", not rej_a, detail)
     ctx.obligation("correspondence (%s): no cache file under a name the model does not know" % tag, "correspondence",
